@@ -345,15 +345,25 @@ def handleCamvp (w h : Nat) (r1 : Rect) (r2 : Option Rect) (impl : List String) 
 
 def handleCamproj (w h : Nat) (f near far : Q) (req : Rect) (view : M4 Q) (p : V3 Q) (half : Q) (order : String)
     (impl : List String) : Verdict :=
+  -- builder order: permutation of m(ode), v(iewport), p(erspective) | o(rthographic); legacy "pv" = "mpv", "vp" = "mvp".
+  -- `mode()` only stores the view matrix (cam.rs:69), so the model depends on the relative order of projection and viewport only.
+  let order := if order == "pv" then "mpv" else if order == "vp" then "mvp" else order
+  let ortho := order.contains 'o'
+  let idx (c : Char) : Nat := (order.toList.takeWhile (· != c)).length
+  let projFirst := decide ((if ortho then idx 'o' else idx 'p') < idx 'v')
+  -- orthographic box (-1/f, -1/f, near)..(1/f, 1/f, far) with 1/f rounded as the harness' f32 division rounds it
+  let bx : Q := F32.toRatD (F32.ofRat (1 / f))
   let c0 : Camera Q := Camera.new w h
+  let proj (c : Camera Q) : Outcome (Camera Q) :=
+    if ortho then c.orthographic ⟨-bx, -bx, near⟩ ⟨bx, bx, far⟩ else c.perspective f near far
   let cam : Outcome (Camera Q) :=
-    if order == "pv" then
-      match c0.perspective f near far with
+    if projFirst then
+      match proj c0 with
       | .ok c => c.setViewport req
       | .panic m => .panic m
     else
       match c0.setViewport req with
-      | .ok c => c.perspective f near far
+      | .ok c => proj c
       | .panic m => .panic m
   let sp := specViewport req w h
   let v := Verdict.ok ["camproj", order, if sp.nonempty then "vp-nonempty" else "vp-empty"]
@@ -404,10 +414,13 @@ def handleCamproj (w h : Nat) (f near far : Q) (req : Rect) (view : M4 Q) (p : V
         else if q.z ≤ 0 then tagOnce v "behind-eye"
         else
           -- aspect ratio in force when perspective() was called
-          let asp : Q := if order == "pv" then (w : Q) / (h : Q) else ((sp.r - sp.l : Nat) : Q) / ((sp.b - sp.t : Nat) : Q)
-          let px : Q := (sp.l : Q) + ((sp.r : Q) - (sp.l : Q)) / 2 * (1 + f * q.x / q.z)
-          let py : Q := (sp.t : Q) + ((sp.b : Q) - (sp.t : Q)) / 2 * (1 + f * asp * q.y / q.z)
-          let depth : Q := 1 / q.z
+          let asp : Q := if projFirst then (w : Q) / (h : Q) else ((sp.r - sp.l : Nat) : Q) / ((sp.b - sp.t : Nat) : Q)
+          -- NDC coordinates and screen depth predicted by geometry: pinhole (x·f/z, y·f·a/z, 1/z) or parallel (x/bx, y/bx, 1)
+          let ndc (qq : V4 Q) : Q × Q × Q :=
+            if ortho then (qq.x / bx, qq.y / bx, 1) else (f * qq.x / qq.z, f * asp * qq.y / qq.z, 1 / qq.z)
+          let (nx, ny, depth) := ndc q
+          let px : Q := (sp.l : Q) + ((sp.r : Q) - (sp.l : Q)) / 2 * (1 + nx)
+          let py : Q := (sp.t : Q) + ((sp.b : Q) - (sp.t : Q)) / 2 * (1 + ny)
           let v := match scrI with
             | [sx, sy, sz] =>
               -- the property's bands: 0.02 px, 0.1 % depth
@@ -429,8 +442,10 @@ def handleCamproj (w h : Nat) (f near far : Q) (req : Rect) (view : M4 Q) (p : V
                 let pin (wp : V3 Q) : Option (Q × Q × Q) :=
                   let qq := Spec.Mat.mulVec4 view ⟨wp.x, wp.y, wp.z, 1⟩
                   if qq.z ≤ 0 then none
-                  else some ((sp.l : Q) + ((sp.r : Q) - (sp.l : Q)) / 2 * (1 + f * qq.x / qq.z),
-                             (sp.t : Q) + ((sp.b : Q) - (sp.t : Q)) / 2 * (1 + f * asp * qq.y / qq.z), qq.z)
+                  else
+                    let (mx, my, _) := ndc qq
+                    some ((sp.l : Q) + ((sp.r : Q) - (sp.l : Q)) / 2 * (1 + mx),
+                          (sp.t : Q) + ((sp.b : Q) - (sp.t : Q)) / 2 * (1 + my), qq.z)
                 match pin ((p.sub ax).sub ay), pin ((p.add ax).sub ay), pin (p.add ay) with
                 | some (ux, uy, uz), some (vx, vy, vz), some (wx, wy, wz) =>
                   let bx0 := ratMin ux (ratMin vx wx); let bx1 := ratMax ux (ratMax vx wx)
@@ -456,8 +471,11 @@ def handleCamproj (w h : Nat) (f near far : Q) (req : Rect) (view : M4 Q) (p : V
                       s!"lit pixels x∈[{x0},{x1}] y∈[{y0},{y1}], predicted triangle image [{ratApprox bx0},{ratApprox bx1}]×[{ratApprox by0},{ratApprox by1}]"
                     let _ := (sx, sy)
                     match f? (more.getD 6 "") with
-                    | some z => v.withSpec (inDepth && inside && (z < 1 / zmax * (1 - 1 / 500) || z > 1 / zmin * (1 + 1 / 500))) "render-depth-off"
-                        s!"depth buffer {ratApprox z}, predicted 1/z ∈ [{ratApprox (1 / zmax)},{ratApprox (1 / zmin)}]"
+                    | some z =>
+                      let dlo : Q := if ortho then 1 else 1 / zmax
+                      let dhi : Q := if ortho then 1 else 1 / zmin
+                      v.withSpec (inDepth && inside && (z < dlo * (1 - 1 / 500) || z > dhi * (1 + 1 / 500))) "render-depth-off"
+                        s!"depth buffer {ratApprox z}, predicted screen depth ∈ [{ratApprox dlo},{ratApprox dhi}]"
                     | none => v.withSpec true "non-finite-output" "non-finite depth written"
                 | _, _, _ => tagOnce v "tri-behind-eye"
               | _, _ => bad "camproj render fields"
